@@ -207,7 +207,7 @@ func verifC09Rank(rx, ry, rz int) {}
 //@ func newMask(n int) (m mask)
 //@   props C06
 //@   requires 0 <= n <= 281474976710656
-//@   ensures len(m) == (n+31)/32 && (len(m) == 0 || fresh(m)) && forall w int :: 0 <= w < len(m) ==> m[w] == bv32(0)
+//@   ensures m != nil && len(m) == (n+31)/32 && (len(m) == 0 || fresh(m)) && forall w int :: 0 <= w < len(m) ==> m[w] == bv32(0)
 
 //@ func (m mask) set(i int)
 //@   props C06
@@ -215,6 +215,7 @@ func verifC09Rank(rx, ry, rz int) {}
 //@   modifies m
 //@   ensures m[i/32] == (old(m[i/32]) | (bv32(1) << bv32(i%32)))
 //@   ensures forall w int :: 0 <= w < len(m) && w != i/32 ==> m[w] == old(m[w])
+//@   ensures forall j int :: 0 <= j < 32*len(m) ==> (bit(m, j) <==> (old(bit(m, j)) || j == i))
 
 //@ func (m mask) and(n mask)
 //@   props C06
@@ -343,7 +344,6 @@ func verifC09Rank(rx, ry, rz int) {}
 //@   loop 1:
 //@     invariant 0 <= idx() <= len(res.Values) && unchanged() && len(m) == (len(res.Values)+31)/32 && m != nil && (len(m) == 0 || fresh(m))
 //@     invariant forall i int :: 0 <= i < idx() ==> (bit(m, i) <==> unitMatches(q, res.Values[i]))
-//@     invariant forall w int :: 0 <= w < len(m) && 32*w >= idx() ==> m[w] == bv32(0)
 //@     invariant forall i int :: idx() <= i < 32*len(m) ==> !bit(m, i)
 //@     decreases len(res.Values) - idx()
 
